@@ -77,4 +77,34 @@ CHECKS = {
         "assumptions": ["reference SM2 validated at start of every run"],
         "units": [gt("internal", "./sm2/internal/", "TestVerifC15")],
     },
+    "C05": {
+        "level": "exploration",
+        "rule": "differential monitor vs a reference SM4 whose S-box is computed algebraically: per key (0^128, 1^128, standard example, all 128 single-bit keys, byte repeats, random) the portable and assembly key schedules (enc and dec arrays), portable x1/x2, vector kernels x1/x2/x4/x8/x16 with distinct blocks in every lane, a probe rotated through all 16 lanes, decrypt(encrypt), in-place, S-box covering set (all 256 values in each byte position of round 1); public Encrypt/Decrypt with the accelerated path enabled and disabled, key slice overwritten after construction, key lengths 0..40; a class is (path, key class)",
+        "assumptions": ["reference SM4 validated against GB/T 32907 example (plus 1,000,000-fold iteration in thorough) and 2,000 OpenSSL KATs at start of every run", ARM64_NOTE],
+        "units": [gt("sm4", "./sm4/", "TestVerifC05")],
+    },
+    "C06": {
+        "level": "exploration",
+        "rule": "Seal(nil,...) vs SP 800-38D GCM over the reference SM4 (bitwise GF(2^128)), on the fused-assembly path and on the std-lib generic path over the portable cipher: every plaintext length and every aad length 0..1100 (a seed-rotated third plus all class lengths in quick; all in thorough), nonce lengths 1..300 at tag 16, tags 12..16 at nonce 12, length-class cross product, counter wrap via nonces SOLVED through GF(2^128) so that the counter wraps j=0..80 (300 thorough) blocks into the message, 700 OpenSSL KATs; a class is (path, kernel combination n256/b128/b64/b32/b16/tail, GHASH class of aad, nonce class, tag size)",
+        "assumptions": ["reference GCM validated against RFC 8998, 700 OpenSSL SM4-GCM KATs and the std-lib generic GCM at start of every run; nonces longer than 128 bytes have only the model and the std-lib generic mode as oracles (OpenSSL limit)", ARM64_NOTE],
+        "units": [gt("sm4", "./sm4/", "TestVerifC06")],
+    },
+    "C07": {
+        "level": "exploration",
+        "rule": "Open(nil,...) vs the reference GCM verdict on both paths: every message of the C06 length-class list is opened authentically and under ~10 forgeries (bit flips in ciphertext/tag/nonce/aad, truncation, extension); a set of messages gets the FULL mutation treatment: every single-bit flip of ciphertext, tag, nonce and aad, every truncation, 1..32-byte extensions at both ends, swapped nonce/aad, every length shorter than the tag; a class is (path, mutation kind, message length class)",
+        "assumptions": ["reference GCM validated at start of every run", ARM64_NOTE],
+        "units": [gt("sm4", "./sm4/", "TestVerifC07")],
+    },
+    "C10": {
+        "level": "exploration",
+        "rule": "buffer-contract monitor on both paths: Seal/Open with 10 dst shapes (nil, empty non-nil, len=cap prefixes 1/16/17, exact capacity, larger capacity, one byte short) plus the in-place idioms Seal(pt[:0]) / Open(ct[:0]) over all message length classes; result must equal dst||reference output; key, nonce, aad, message and ciphertext live in PROT_READ pages (a write faults at the instruction) and are snapshot-compared; every call is executed twice on the same buffers; a class is (path, op, dst shape, kernel combination)",
+        "assumptions": ["reference GCM/SM3/SM2 validated at start of every run", ARM64_NOTE],
+        "units": [gt("sm4", "./sm4/", "TestVerifC10SM4")],
+    },
+    "C11": {
+        "level": "exploration",
+        "rule": "guard-page monitor: every pointer argument in its own mapping with PROT_NONE pages on both sides, end-abutting and start-abutting; Block Encrypt/Decrypt for dst/src lengths 0..32 (and short-len/large-cap heap slices), Seal/Open/forged/short-ciphertext for every plaintext length 0..1100 (0..300 plus a seed-rotated fifth and all class lengths in quick), aad 0..300, nonce 1..300, tags 12..16, dst nil or exact-capacity guarded; assembly routines x1..x16, expandKeyAsm, gHashBlocks (1..40 blocks), sealAsm/openAsm called directly with exact-size buffers and round keys laid out as the cipher object (enc then dec, nothing after); a hardware fault = out-of-range access, an ordinary panic on too-short arguments = detected misuse; a class is (path, op, residues mod 16, tag, placement, dst kind)",
+        "assumptions": ["a positive control (deliberate 1-byte over-read) must fault in every run", "faults are converted by debug.SetPanicOnFault; red zones are one page wide, non-adjacent wild accesses beyond a page are not seen by this monitor", ARM64_NOTE],
+        "units": [gt("sm4", "./sm4/", "TestVerifC11")],
+    },
 }
